@@ -617,7 +617,7 @@ func (w *mtWorkload) compare(br *rig.BlockRecord, tx *rig.TxRecord, s *mtSnap) {
 
 func runMT(run *ev.Run, c int) {
 	w := newMTWorkload()
-	r := rig.New(rig.Options{Seed: fmt.Sprintf("mt-%d-%d", run.Seed, c), NumAccounts: 5, Balances: sdk.NewCoins(sdk.NewInt64Coin(rig.BondDenom, 1_000_000)), InflationOff: true})
+	r := rig.New(rig.Options{Seed: fmt.Sprintf("mt-%d-%d", run.Seed, c), NumAccounts: 5, Balances: sdk.NewCoins(sdk.NewInt64Coin(rig.BondDenom, 1_000_000)), InflationOff: true, SubSecond: c%2 == 1})
 	w.Attach(run, r)
 	r.Snapshot = func(ctx sdk.Context) any { return w.snapshot(ctx) }
 	blocks := tierN(run.Tier, 300, 1500)
